@@ -251,6 +251,14 @@ def make_run(name, sbo, size, seed):
     else:
         s = SearchSpace(n_agents=n, n_variables=nv, n_iterations=T, lower_bound=lb, upper_bound=ub)
     o = Opytimizer(space=s, optimizer=cls(), function=Function(pointer=objective))
+    if seed % 2 == 1:
+        # a task started with a pre-evaluation hook that is a closure (not importable by name, hence not picklable): whatever the task
+        # puts into its History must still survive save/load
+        calls = []
+
+        def hook(optimizer, space, function):
+            calls.append(len(space.agents))
+        return o.start(store_best_only=sbo, pre_evaluation_hook=hook)
     return o.start(store_best_only=sbo)
 
 
